@@ -5,7 +5,36 @@
  * case "sys n root"     -> n simulated processes in this address space; the
  *                          recorded messages are delivered FIFO; prints how many
  *                          notifications each rank received and callback counts */
+/* case "arr ini n root me s0 s1 …" -> the arrival protocol of one process under a controlled schedule:
+ *                          thread 0 (communication thread) runs the PUBLIC entry
+ *                          parsec_termdet_user_trigger_msg_dispatch for the one notification, thread 1
+ *                          (main thread) registers the taskpool (ini = 0) and makes it ready (ini <= 1);
+ *                          scheduling points: before each taskpool lookup, before each lock attempt on the
+ *                          delayed-message list (a failed attempt is a stutter step), before each unlock.
+ *                          parsec_taskpool_lookup is replaced by a one-entry table (C37 is about the real one). */
+#include "parsec/parsec_config.h"
+#include "parsec/parsec_internal.h"
+#include "parsec/include/parsec/execution_stream.h"
+#include "parsec/utils/debug.h"
+#include "parsec/mca/termdet/termdet.h"
+#include "parsec/mca/termdet/user_trigger/termdet_user_trigger.h"
+#include "parsec/remote_dep.h"
+#include "parsec/class/list.h"
+#include "cosched.h"
+static parsec_taskpool_t *h_registered;
+static parsec_taskpool_t *h_lookup(uint32_t id) {
+    cos_yield();
+    return (h_registered != NULL && h_registered->taskpool_id == id) ? h_registered : NULL;
+}
+static void h_list_lock(parsec_list_t *l) { cos_yield(); while (!parsec_atomic_trylock(&l->atomic_lock)) cos_spin(); }
+static void h_list_unlock(parsec_list_t *l) { cos_yield(); parsec_atomic_unlock(&l->atomic_lock); }
+#define parsec_taskpool_lookup(id) h_lookup(id)
+#define parsec_list_lock(l) h_list_lock(l)
+#define parsec_list_unlock(l) h_list_unlock(l)
 #include "parsec/mca/termdet/user_trigger/termdet_user_trigger_module.c"
+#undef parsec_taskpool_lookup
+#undef parsec_list_lock
+#undef parsec_list_unlock
 #include "hcommon.h"
 
 #define MAXN 5000
@@ -35,6 +64,19 @@ static void mk(int n, int me) {
 static void rel(int me) {
     tps[me]->tdm.module->unmonitor_taskpool(tps[me]);
     free(tps[me]); free(ctxs[me]);
+}
+
+static int arr_ini, arr_me, arr_root;
+static void arr_comm(void *a) {
+    parsec_termdet_user_trigger_msg_t m = { 7, arr_root };
+    (void)a; cur_rank = arr_me;
+    parsec_termdet_user_trigger_msg_dispatch(&parsec_ce, PARSEC_TERMDET_USER_TRIGGER_MSG_TAG, &m, sizeof(m), 0, NULL);
+}
+static void arr_main(void *a) {
+    (void)a;
+    if (arr_ini == 0) { cos_yield(); h_registered = tps[arr_me]; }
+    cos_yield();
+    tps[arr_me]->tdm.module->taskpool_ready(tps[arr_me]);
 }
 
 int main(int argc, char **argv) {
@@ -75,6 +117,30 @@ int main(int argc, char **argv) {
             for (int i = 0; i < n; i++) printf(" %d", cb_count[i]);
             printf("\n");
             for (int i = 0; i < n; i++) rel(i);
+        } else if (!strncmp(l, "arr ", 4)) {
+            static long w[4096]; char *q = l + 4; int nw = hc_ints(&q, w, 4096);
+            if (nw < 4 || w[1] < 1 || w[1] > MAXN || w[3] < 0 || w[3] >= w[1]) { printf("<bad case>\n"); continue; }
+            int n = w[1]; arr_ini = w[0]; arr_root = w[2]; arr_me = w[3];
+            mk(n, arr_me); nsent = 0; cur_rank = arr_me; h_registered = NULL;
+            if (arr_ini >= 1) h_registered = tps[arr_me];
+            if (arr_ini >= 2) tps[arr_me]->tdm.module->taskpool_ready(tps[arr_me]);
+            cos_reset();
+            cos_spawn(arr_comm, NULL);
+            if (arr_ini <= 1) cos_spawn(arr_main, NULL);
+            int stuck = cos_run(w + 4, nw - 4, 1000);
+            int parked = 0;
+            for (parsec_list_item_t *it = PARSEC_LIST_ITERATOR_FIRST(&parsec_termdet_user_trigger_delayed_messages);
+                 it != PARSEC_LIST_ITERATOR_END(&parsec_termdet_user_trigger_delayed_messages); it = PARSEC_LIST_ITEM_NEXT(it)) parked++;
+            int lockfree = parsec_atomic_trylock(&parsec_termdet_user_trigger_delayed_messages.atomic_lock);
+            if (lockfree) parsec_atomic_unlock(&parsec_termdet_user_trigger_delayed_messages.atomic_lock);
+            printf("done=%d cb=%d parked=%d lockfree=%d state=%d steps=%d,%d children:", !stuck, cb_count[arr_me], parked, lockfree,
+                   (int)tps[arr_me]->tdm.module->taskpool_state(tps[arr_me]), cos_steps[0], cos_n > 1 ? cos_steps[1] : 0);
+            for (int i = 0; i < nsent; i++) printf(" %d", sent_dst[i]);
+            printf("\n");
+            /* leave the module's global list empty and unlocked for the next case */
+            while (parsec_list_nolock_pop_front(&parsec_termdet_user_trigger_delayed_messages)) ;
+            parsec_atomic_lock_init(&parsec_termdet_user_trigger_delayed_messages.atomic_lock);
+            if (tps[arr_me]->tdm.module->taskpool_state(tps[arr_me]) == PARSEC_TERM_TP_TERMINATED) rel(arr_me);
         } else printf("<bad case>\n");
     }
     return 0;
